@@ -38,7 +38,8 @@ CLAIMS = {
              "and the result constructors negate costs order-reversingly: best_solution has the position and cost of a member of the last "
              "generation and no member is strictly better in the task's direction.",
              NOTE_VC + NOTE_HOOKS, TECH_VC + "; " + TECH_BND),
-    "C04": C("Proved for all rate histories, all max_cycles >= 1, patience >= 1, min_delta, fitness_error: __should_stop__ returns exactly the "
+    "C04": C("Proved for all rate histories, all max_cycles >= 1, patience >= 1 or None, min_delta or None (None = the model default, "
+             "1 and 1e-4), fitness_error: __should_stop__ returns exactly the "
              "predicate Stop of the statement (both directions; the code's window over first differences against 0 is proved equivalent), "
              "__error_check__ appends |1 - mean fitness| and the difference, optimize()'s loop (invariant: no earlier stop, one generation "
              "and one rate per cycle, rate k = |1 - mean fitness of recorded generation k| for every k, cycle <= max_cycles; variant "
